@@ -134,6 +134,49 @@ func genC13(g *G) {
 			}
 		}
 	}
+	// every type against the boundaries of every other width and of the machine words (a fast path guarded by the
+	// wrong width test shows only there), as one retained batch per type and mode
+	for _, signed := range []bool{false, true} {
+		for bits := 8; bits <= 256; bits += 8 {
+			t := fmt.Sprintf("int%d", bits)
+			if !signed {
+				t = "u" + t
+			}
+			for _, mode := range []string{"packed", "padded"} {
+				calls := []any{}
+				for _, k := range []int{7, 8, 15, 16, 24, 31, 32, 33, 62, 63, 64, 65, 127, 128, 191, 192, 255, 256, 257} {
+					for _, off := range []*big.Int{big.NewInt(0), big.NewInt(1), big.NewInt(-1), new(big.Int).Neg(pow(bits - 1)), new(big.Int).Sub(big.NewInt(-1), pow(bits-1)),
+						new(big.Int).Neg(pow(bits)), new(big.Int).Sub(big.NewInt(1), pow(bits-1))} {
+						v := new(big.Int).Add(pow(k), off)
+						calls = append(calls, J{"mode": mode, "type": t, "v": v.String()}, J{"mode": mode, "type": t, "v": new(big.Int).Neg(v).String()})
+					}
+				}
+				g.Emit(J{"op": "evm.int.batch", "calls": calls}, "batch", "cross-width-boundaries")
+			}
+		}
+	}
+	// type strings: every width 0..300 written plainly and in the spellings a number parser might accept
+	// (leading zeros, octal/hex/binary prefixes, signs, separators, exponents)
+	for w := 0; w <= 300; w++ {
+		forms := []string{fmt.Sprint(w), fmt.Sprintf("0%d", w), fmt.Sprintf("00%d", w), fmt.Sprintf("+%d", w), fmt.Sprintf("0x%x", w), fmt.Sprintf("0o%o", w), fmt.Sprintf("0%o", w),
+			fmt.Sprintf("0b%b", w), fmt.Sprintf("%d.0", w), fmt.Sprintf("%de0", w), fmt.Sprintf("%d_", w), fmt.Sprintf("_%d", w)}
+		if w >= 10 {
+			d := fmt.Sprint(w)
+			forms = append(forms, d[:1]+"_"+d[1:])
+		}
+		for fi, f := range forms {
+			if fi > 0 && !g.Thorough() && w%8 != 0 && (w+fi)%5 != 0 {
+				continue
+			}
+			for _, pre := range []string{"int", "uint"} {
+				op := "evm.int.packed"
+				if (w+fi)%2 == 0 {
+					op = "evm.int.padded"
+				}
+				g.Emit(J{"op": op, "type": pre + f, "v": "100"}, "type-spelling")
+			}
+		}
+	}
 	for _, t := range badTypes {
 		g.Emit(J{"op": "evm.int.packed", "type": t, "v": "1"}, "bad-type")
 		g.Emit(J{"op": "evm.int.padded", "type": t, "v": "-1"}, "bad-type")
